@@ -1,9 +1,13 @@
 (* C02 — Bytes of a live allocation change only through its owner.
-   PARTIAL: the frame property is proved for allocate / allocate_zeroed / fill and for every
-   operation that never writes; the copy performed by grow/shrink is covered by the
-   correspondence check (block contents compared) and the byte-pattern monitor. *)
+   The frame property is proved for allocate / allocate_zeroed / fill, for every operation that
+   never writes, and for grow(_zeroed) / shrink (every branch: in place, moved down in place,
+   moved to another chunk, through WithoutShrink): the new block starts with the old contents,
+   a zeroed grow has a zero tail, and no byte outside the returned block changes; with the
+   invariant, growing a block leaves the bytes of every OTHER live block alone.
+   PARTIAL: the analogous "other blocks" corollary for shrink, and commit's moves (C15), are
+   stated per operation only. *)
 From Coq Require Import ZArith List Bool.
-From BS Require Import Word BumpSpec ChunkSpec Arena ArenaInv ArenaMem.
+From BS Require Import Word BumpSpec ChunkSpec Arena ArenaInv ArenaMem ArenaMem2.
 Import ListNotations.
 Open Scope Z_scope.
 
@@ -43,7 +47,47 @@ Theorem C02_without_shrink_unfixed_refuted :
     mem (fst (step (Refuted.cf false) Refuted.s5 Refuted.o None)) a <> mem Refuted.s5 a.
 Proof. exact Refuted.without_shrink_frame_refuted. Qed.
 
+Theorem C02_grow_contents_and_frame :
+  forall c s0 h ws b nsize nalign zeroed r blk,
+  find_block (tick s0) b = Some blk -> bsize blk <= nsize -> 0 <= bsize blk ->
+  let '(s', out) := step c s0 (OGrow h ws b nsize nalign zeroed) r in
+  match o_res out with
+  | RBlock id p sz =>
+    sz = nsize /\
+    (forall k, 0 <= k < bsize blk -> mem s' (p + k) = mem s0 (bptr blk + k)) /\
+    (zeroed = true -> forall a, p + bsize blk <= a < p + nsize -> mem s' a = 0) /\
+    (forall a, ~ (p <= a < p + nsize) -> mem s' a = mem s0 a)
+  | _ => forall a, mem s' a = mem s0 a
+  end.
+Proof. exact grow_contents_and_frame. Qed.
+
+Theorem C02_shrink_contents_and_frame :
+  forall c s0 h ws b nsize nalign r blk,
+  fix_without_shrink c = true ->
+  find_block (tick s0) b = Some blk -> 0 <= nsize <= bsize blk ->
+  let '(s', out) := step c s0 (OShrink h ws b nsize nalign) r in
+  match o_res out with
+  | RBlock id p sz =>
+    nsize <= sz /\
+    (forall k, 0 <= k < nsize -> mem s' (p + k) = mem s0 (bptr blk + k)) /\
+    (forall a, ~ (p <= a < p + nsize) -> mem s' a = mem s0 a)
+  | _ => forall a, mem s' a = mem s0 a
+  end.
+Proof. exact shrink_contents_and_frame. Qed.
+
+Theorem C02_grow_keeps_other_blocks :
+  forall c s0 h ws b nsize nalign zeroed r blk b',
+  cfg_ok c -> inv c s0 -> valid_layout nsize nalign -> resp_ok c s0 nsize nalign r ->
+  find_block (tick s0) b = Some blk -> bsize blk <= nsize ->
+  In b' (live s0) -> bid b' <> b ->
+  forall a, bptr b' <= a < bptr b' + bsize b' ->
+  mem (fst (step c s0 (OGrow h ws b nsize nalign zeroed) r)) a = mem s0 a.
+Proof. exact grow_keeps_other_blocks. Qed.
+
 Print Assumptions C02_alloc_frame.
+Print Assumptions C02_grow_contents_and_frame.
+Print Assumptions C02_shrink_contents_and_frame.
+Print Assumptions C02_grow_keeps_other_blocks.
 Print Assumptions C02_zeroed_reads_zero.
 Print Assumptions C02_fill_frame.
 Print Assumptions C02_no_write_ops.
